@@ -196,6 +196,7 @@ const (
 	monG34
 	monG5
 	monG8
+	monG9 // every change of a key stamps it with a version never used before
 )
 
 // vL2 runs one template on one key state with the given monitors.
@@ -256,7 +257,8 @@ func vL2(mon int) {
 			args[i] = a
 		}
 	}
-	needSnap := mon&(monG2|monG5) != 0
+	needSnap := mon&(monG2|monG5|monG9) != 0
+	versionBefore := cs.ds.dataObjectNumber
 	var before [5]vKeySnap
 	if needSnap {
 		for i, k := range vL2Keys {
@@ -284,6 +286,19 @@ func vL2(mon int) {
 			unchanged = vAnd(unchanged, vSnapEq(before[i], after[i]))
 		}
 	}
+	if mon&monG9 != 0 {
+		// WATCH compares version stamps: it is sound over sequences of commands
+		// only if a key whose content, expiry or identity changed carries a
+		// stamp that no key has carried before (so that changing it back, or
+		// moving it away and back, cannot restore a watched stamp)
+		for i := range vL2Keys {
+			if !after[i].exists {
+				continue
+			}
+			same := vAnd(vSnapEq(before[i], after[i]), before[i].id == after[i].id)
+			vAssert("G9-changed-key-carries-a-fresh-version", vOr(same, after[i].id > versionBefore))
+		}
+	}
 	if mon&monG2 != 0 && vIsErr(r) {
 		vAssert("G2-error-reply-leaves-state-unchanged", unchanged)
 	}
@@ -304,6 +319,10 @@ func VerifH_c06_l2() { vL2(monG2 | monG34 | monG8) }
 // number in its integer arguments, panics or allocates by a client number
 // (G8), and a second command on the same connection is answered afterwards.
 func VerifH_c13_l2() { vL2(monG8) }
+
+// VerifH_c10_l2_fresh: the version-stamp invariant WATCH relies on, over
+// the command table (one inductive step from every key type).
+func VerifH_c10_l2_fresh() { vL2(monG9) }
 
 // VerifH_c13_restore: RESTORE with an arbitrary payload of 10..16 bytes
 // (the solver has to produce the checksum): never a panic, and whatever key
